@@ -7,6 +7,7 @@
 //
 //   T <scheme> <comp> <classes> <xslot> <nmem> <prog>...
 //     <ntrain> {<label> <in0> <in1> <in2>}...  <nquery> {<in0> <in1> <in2>}...
+//   V ... (as T) <holdout|dss> <perc> <seed>: evaluator / lambdify on the validation frame filled by the real strategy
 //   D ... (as T): damaged copies of the saved model text are fed to serialize::lambda::load;
 //        output  R d <variants> ok <n> null <n> df <n> other <n> <first other exception|->
 //   H <scheme> <comp> <classes> <xslot> <npool> <prog>...
@@ -431,6 +432,101 @@ std::string d_case(const casedata &c, MK mk)
          + " df " + std::to_string(n_df) + " other " + std::to_string(n_other) + " " + (first_other.empty() ? "-" : first_other);
 }
 
+// ---------------------------------------------------------------- V cases
+// the training frame is split by the REAL validation strategy (holdout / dss
+// move examples to the validation frame with push_back); the classification
+// evaluator and lambdify are then used on the validation frame, as
+// search::calculate_metrics does with eva2_.
+//   extra tokens after the queries: <holdout|dss> <percentage> <seed>
+//   output: R vc <classes() of the validation frame> vs <its size> ts <training size left>
+//           vrows <index of the original training row of each validation example, in order>
+//           fit <hex> l <pred on each query of the model lambdify'ed from the validation frame>
+struct nocache : cached_evaluator
+{
+};
+
+template<class M, class P, class MK, class EV>
+std::string v_case(const casedata &c, MK, EV *, reader &rd)
+{
+  constexpr bool cls = std::is_base_of_v<core_class_lambda_f, M>;
+  const std::string strategy(rd.next());
+  const long perc(rd.num());
+  const unsigned seed(static_cast<unsigned>(rd.num()));
+
+  dataframe &tr(PR->data(dataset_t::training));
+  dataframe &va(PR->data(dataset_t::validation));
+  fill(tr, c.train, c.classes);
+  // a fresh validation frame, as src_problem creates it
+  const auto saved_columns(tr.columns);
+  va = dataframe();
+
+  std::unique_ptr<P> prg(new P(make_program<P>(c.progs)));
+  random::seed(seed);
+  nocache ct, cv;
+  if (strategy == "holdout")
+  {
+    PR->env.validation_percentage = static_cast<unsigned>(perc);
+    holdout_validation hv(*PR);
+    hv.init(0);
+  }
+  else
+  {
+    PR->env.dss = 1;
+    dss ds(*PR, ct, cv);
+    ds.init(0);
+  }
+
+  std::string out("R vc " + std::to_string(va.classes()) + " vs " + std::to_string(va.size()) + " ts "
+                  + std::to_string(tr.size()) + " vrows");
+  std::vector<bool> used(c.train.size(), false);
+  auto key = [](const value_t &label, const std::vector<value_t> &in)
+  {
+    std::string k(vv::show(label));
+    for (const auto &v : in) k += " " + vv::show(v);
+    return k;
+  };
+  for (const auto &e : va)
+  {
+    long found(-1);
+    for (std::size_t i(0); i < c.train.size(); ++i)
+      if (!used[i] && key(c.train[i].label, c.train[i].in) == key(e.output, e.input))
+      {
+        found = static_cast<long>(i);
+        used[i] = true;
+        break;
+      }
+    out += " " + std::to_string(found);
+  }
+
+  std::string fit("-");
+  std::unique_ptr<basic_lambda_f> lam;
+  if constexpr (!std::is_same_v<EV, void>)
+  {
+    if (!va.empty())
+    {
+      // the evaluator over the VALIDATION frame (eva2_)
+      std::unique_ptr<EV> ev2;
+      if constexpr (std::is_constructible_v<EV, dataframe &, unsigned>)
+        ev2.reset(new EV(va, static_cast<unsigned>(c.xslot)));
+      else
+        ev2.reset(new EV(va));
+      const fitness_t f((*ev2)(*prg));
+      fit = showd(f[0]);
+      lam = ev2->lambdify(*prg);
+    }
+  }
+  prg.reset();
+  out += " fit " + fit + " l";
+  if (lam)
+    for (const auto &r : c.query) out += " " + predict_dyn(lam.get(), mk_example(r), cls);
+
+  // leave the problem as the other cases expect it
+  va = dataframe();
+  tr.columns = saved_columns;
+  PR->env.validation_percentage = 20;
+  return out;
+}
+
 // ---------------------------------------------------------------- H cases
 template<class M, class P, class MK>
 std::string h_case(const casedata &c, MK mk, reader &rd)
@@ -592,6 +688,11 @@ static std::string do_line(const std::string &line)
     }                                                                           \
     else if (kind == "D")                                                       \
       r = d_case<M, P>(c, mk);                                                  \
+    else if (kind == "V")                                                       \
+    {                                                                           \
+      EVEXPR;                                                                   \
+      r = v_case<M, P>(c, mk, evp, rd);                                         \
+    }                                                                           \
     else                                                                        \
       r = h_case<M, P>(c, mk, rd);                                              \
   }
